@@ -41,6 +41,10 @@ CHECKS = {
    text="TLC checks ReqContext (per-request context travelling through context functions, body arrival, middleware, filter/handler of up to 4 concurrent requests) and finds the bleed when the enriched context is parked in a server-wide slot; interleavings of these steps for 2 and 3 concurrent requests are forced on real Streamable (stateful, stateless) and legacy SSE servers - through gates inside instrumented context functions, middleware, list filters and handlers, and through a deliberately slow request body - and every stage reports the token, context-function order, session, server handle and notification sender it sees; list answers are compared with what the filter admits for that caller (an admin and a user ask for the same list); stage logs are validated by TLC against TraceContext.",
    note="Trusted: TLC, the instrumented stages (harness code), goroutine identity to attribute a filter call to its request. Server handle: must never be foreign and must be present in tool handlers; its absence elsewhere is not flagged (the code injects it for tool calls only). Notification sender required on Streamable HTTP only.",
    technique="TLA+ model checking (TLC) + gate-forced interleaving replay + TLC trace validation"),
+ "C12": dict(level="model_checking", design="DESIGN.md §5 C12",
+   text="TLC checks Registry.tla (a list built under one lock is a snapshot of some instant inside the call; order bookkeeping) and finds the torn list of a two-read design; recorded invoke/return histories of randomized concurrent workloads on a real server (register / re-register / unregister / list / call, results carrying the handler version) are checked for linearizability by TLC (TraceRegistry, one silent Linearize step per operation; resources in registration order); in addition the schedules on which the two-read model itself returns a non-snapshot are forced on the real list code through a hook gate inside the list loops; a crash storm (tight re-registration against tight readers) runs in a child process.",
+   note="Trusted: TLC, the mutex-ordered history log (real-time precedence only). Atomicity windows without an instrumentation point (e.g. a handler replaced in two steps) are only reached probabilistically by the stress workloads. A static lockset claim is not decided.",
+   technique="TLA+ model checking (TLC) + linearizability checking of recorded histories in TLA+ + gate-forced schedules + crash storm"),
 }
 NA = {
  "C20": "data-race freedom is a statement about individual memory accesses under the Go memory model; an abstract state-machine specification has no notion of them (see DESIGN.md §6)",
